@@ -109,6 +109,31 @@ def relational_vector(vec):
         for st in (a, b):
             problems += [tag + p for p in conservation(S, st.stock.values, st.inflow.values, st.outflow.values)]
             problems += [tag + p for p in cohort_clauses(S, st)]
+        # ... and after computing the SAME object a second time (cached tables must not be consumed by a compute)
+        a.compute()
+        problems += [tag + "(second compute() on the same object) " + p.replace("{C03}", "{C03,C17}") for p in
+                     conservation(S, a.stock.values, a.inflow.values, a.outflow.values)]
+        problems += [tag + "(second compute() on the same object) " + p.replace("{C09}", "{C09,C17,C16}") for p in cohort_clauses(S, a)]
+        other = run_id(S, model, variant, d2)            # (an independent object for comparison below)
+        if not (allclose(other.stock.values, b.stock.values, scale) and allclose(other.outflow.values, b.outflow.values, scale)):
+            problems.append(tag + "{C16,C17} two fresh models with the same inputs give different results")
+        # the clauses have no absolute thresholds: a driver of magnitude 1e-12 obeys them too (checked after rescaling by 2^40)
+        tiny0 = run_id(S, model, variant, d1 * 2.0 ** -40)
+
+        class Up:      # the tiny run, scaled back up
+            pass
+        up = Up()
+        up.inflow = Up(); up.stock = Up(); up.outflow = Up(); up.lifetime_model = tiny0.lifetime_model
+        up.inflow.values = tiny0.inflow.values * 2.0 ** 40
+        up.stock.values = tiny0.stock.values * 2.0 ** 40
+        up.outflow.values = tiny0.outflow.values * 2.0 ** 40
+        sbc0, obc0 = np.asarray(tiny0.get_stock_by_cohort()) * 2.0 ** 40, np.asarray(tiny0.get_outflow_by_cohort()) * 2.0 ** 40
+        up.get_stock_by_cohort = lambda: sbc0
+        up.get_outflow_by_cohort = lambda: obc0
+        problems += [tag + "(driver of magnitude 1e-12) " + p for p in conservation(S, up.stock.values, up.inflow.values, up.outflow.values)]
+        problems += [tag + "(driver of magnitude 1e-12) " + p for p in cohort_clauses(S, up)]
+        if not allclose(up.stock.values, a.stock.values, scale):
+            problems.append(tag + "{C16,C10,C03} the stock of a driver scaled by 2^-40 is not the stock scaled by 2^-40")
         # C09 / C03 also hold after re-parameterising and recomputing the SAME object
         cfg2 = dict(config)
         cfg2["prm8"] = [[v + 8 for v in row] for row in config["prm8"]]
